@@ -10,7 +10,7 @@ PROPERTY = "C10"
 LEVEL = "exploration"
 NEED = ("h4x",)
 RULE = ("histories (<=30 ops) over 10 attributable objects (SD file, 2 SDS, 2 dimensions, GR file, raster image, "
-        "Vdata, Vdata field, Vgroup): set attribute (all number types, counts 1..2000, names incl. long and "
+        "Vdata, Vdata field, Vgroup): set attribute (all number types, counts 1..2000 and counts that put the size at 2048/4096 bytes +-1 element, names incl. long and "
         "shared-prefix ones), re-set with same/different type or count, predefined SD metadata (dimension names incl. "
         "shared, scales, dimension/data strings, calibration, range, fill value), reopen read-only or read-write "
         "followed by creating another object; after each mutator and after the final reopen every attribute is "
@@ -43,18 +43,32 @@ names_st = st.one_of(st.sampled_from(["a", "attr", "attr1", "attr12", "valid", "
 @st.composite
 def strategy_(draw, tier):
     ops = []
+    sets = []
     for _ in range(draw(st.integers(3, 30))):
         c = draw(st.integers(0, 99))
-        if c < 55:
+        if c < 12 and sets:
+            # re-set an existing attribute with the same type and count (new values)
+            o_ = draw(st.sampled_from(sets))
+            ops.append(["set", o_[0], o_[1], o_[2], o_[3], draw(st.integers(0, 99))])
+        elif c < 55:
             obj = draw(st.sampled_from(OBJS))
             nt = draw(st.sampled_from(sorted(sm.NT)))
-            cnt = draw(st.integers(1, 12)) if draw(st.integers(0, 9)) else draw(st.sampled_from([100, 2000]))
+            k_ = draw(st.integers(0, 11))
+            if k_ == 0:
+                cnt = draw(st.sampled_from([100, 2000]))
+            elif k_ == 1:
+                # sizes around the interfaces' caching thresholds (GR keeps attributes of up to 2048 bytes in memory)
+                isz_ = np.dtype(sm.NT[nt][1]).itemsize
+                cnt = max(1, draw(st.sampled_from([2048, 2048, 4096])) // isz_ + draw(st.sampled_from([-1, 0, 0, 1])))
+            else:
+                cnt = draw(st.integers(1, 12))
             name = draw(names_st)
             if draw(st.integers(0, 19)) == 0:
                 # attribute names are stored as Vdata names (64 bytes): longer ones are truncated on reopen,
                 # which is limit handling (C20), not attribute round-tripping
                 name = "L" * draw(st.sampled_from([62, 63, 64]))
             ops.append(["set", obj, name, nt, cnt, draw(st.integers(0, 99))])
+            sets.append((obj, name, nt, cnt))
         elif c < 60:
             obj = draw(st.sampled_from(OBJS))
             ops.append(["setmany", obj, draw(st.integers(10, 14)), draw(st.sampled_from(["int16", "char8", "float64"]))])
